@@ -384,6 +384,9 @@ func (u *ufac) group(parent map[string]any, kidsKey string, depth int, forceB bo
 		parent["_sg"] = append(carr(parent, "_sg"), tn)
 		u.chainNode = parent
 	}
+	if !inB && !forceB && r.Chance(25) {
+		use["ownpfx"] = true
+	}
 	u.lastUse, u.lastParent = use, parent
 	whenLater := !forceB && !dupInside && r.Chance(25)
 	if inB {
@@ -1270,6 +1273,11 @@ func (u *ufac) pickStatus(kids []any, own bool) string {
 		all = append(all, ns[0])
 	}
 	st := pick(u.r, []string{"deprecated", "obsolete"})
+	// a status statement further down — on a node, a uses, an augment, also inside the groupings used — that is better
+	// than this one would be an error of its own ("Cannot override status of parent"), whatever the nodes end up with
+	if u.betterStatusBelow(kids, st, 0) {
+		return ""
+	}
 	if own {
 		for _, k := range kids {
 			kn := k.(map[string]any)
@@ -1288,6 +1296,40 @@ func (u *ufac) pickStatus(kids []any, own bool) string {
 		}
 	}
 	return st
+}
+
+func statusRank(s string) int {
+	return map[string]int{"current": 0, "deprecated": 1, "obsolete": 2}[s]
+}
+
+func (u *ufac) betterStatusBelow(kids []any, st string, depth int) bool {
+	if depth > 20 {
+		return false
+	}
+	for _, k := range kids {
+		kn := k.(map[string]any)
+		if s, ok := kn["status"].(string); ok && statusRank(s) < statusRank(st) {
+			return true
+		}
+		if cstr(kn, "k") == "uses" {
+			if g := u.groupingByName(cstr(kn, "g")); g != nil && u.betterStatusBelow(carr(g, "kids"), st, depth+1) {
+				return true
+			}
+			for _, a := range carr(kn, "augments") {
+				am := a.(map[string]any)
+				if s, ok := am["status"].(string); ok && statusRank(s) < statusRank(st) {
+					return true
+				}
+				if u.betterStatusBelow(carr(am, "kids"), st, depth+1) {
+					return true
+				}
+			}
+		}
+		if u.betterStatusBelow(carr(kn, "kids"), st, depth+1) {
+			return true
+		}
+	}
+	return false
 }
 
 func renderUses(b *strings.Builder, n map[string]any, ind string) {
@@ -1338,6 +1380,9 @@ func renderUses(b *strings.Builder, n map[string]any, ind string) {
 	gn := cstr(n, "g")
 	if t := cstr(n, "tg"); t != "" {
 		gn = t
+	}
+	if cbool(n, "ownpfx") && !strings.Contains(gn, ":") {
+		gn = "m:" + gn // the module's own prefix: the same grouping, scoped ones included
 	}
 	if body.Len() == 0 {
 		b.WriteString(ind + "uses " + gn + ";\n")
